@@ -137,12 +137,12 @@ set_option linter.unusedSectionVars false
 variable {H : Type} [DecidableEq H] [Hasher H]
 
 section ctx
-variable {F : Forest H} {adds : List H} (cr : CR H)
+variable {F : Forest H} {adds : List H} (nz : NZ H)
   (hN : F.numLeaves + adds.length ≤ 2 ^ 63)
   (hndG : (F.addMany adds).liveLeaves.Nodup)
   (hleaf : ∀ x ∈ (F.addMany adds).liveLeaves, x ≠ (zero : H) ∧ ∀ a b : H, x ≠ ph a b)
   {L : List Nat} (hL : DestroySpec F.slots adds.length L)
-include cr hN hndG hleaf hL
+include nz hN hndG hleaf hL
 
 /-- a live leaf of the new forest that was not added is an old leaf -/
 theorem live_old' {x : H} (hx : x ∈ (F.addMany adds).liveLeaves) (ha : x ∉ adds) :
@@ -201,7 +201,7 @@ theorem node_origin {T : Nat} {q : Pos} {t : CTree H} (s : SubAtT (F.addMany add
     obtain ⟨p, o, hm, _⟩ := new_origin hN hL hndG s ha hat
     exact ⟨p, o, hm⟩
   · have hno : ∀ a ∈ adds, a ∉ t.leaves := fun a ha hat => hnew ⟨a, ha, hat⟩
-    obtain ⟨h0, q0, s0, hq⟩ := old_node_of_no_added cr hN hndG hleaf hL s hno
+    obtain ⟨h0, q0, s0, hq⟩ := old_node_of_no_added nz hN hndG hleaf hL s hno
     obtain ⟨T', o, hm, g⟩ := old_origin hN hL s0
     rw [← hq] at g hm
     obtain ⟨e, _⟩ := g.unique s
@@ -225,7 +225,7 @@ theorem moveBack_of_origin {p : Pos} {T : Nat}
 
 /-- an old leaf is not an added leaf -/
 theorem old_not_added' {x : H} (hx : x ∈ F.liveLeaves) (ha : x ∈ adds) : False :=
-  old_not_new cr hN hndG hleaf hx ha
+  old_not_new nz hN hndG hleaf hx ha
 
 /-- **the canonical proof positions of the old forest move to canonical proof positions of the new
 forest, with the same hash** (for the cached leaves that are not additions) -/
@@ -290,7 +290,7 @@ theorem pp_undo_add' {K C' : List H} {tgK tgG : List Pos} {hsK hsG : List H}
     rw [pathSet_iff_leaf hcF hdF]
     refine ⟨h0, ts3, ss, l', (hK l').2 ⟨hl', ?_⟩, hlt'⟩
     intro ha
-    exact old_not_added' cr hN hndG hleaf hL (ss.leaves_live l' hlt') ha
+    exact old_not_added' nz hN hndG hleaf hL (ss.leaves_live l' hlt') ha
 
 end ctx
 
@@ -301,7 +301,7 @@ forest after the block's deletions (possibly empty); `L`: the rows of the all-ze
 additions merge over (`DestroySpec`), `ToDestroy` their positions in the new forest; the cached proof
 is the canonical proof in `F.addMany adds` of a duplicate-free list `C'` (any order).  The result is
 the canonical proof in `F` of the leaves of `C'` that are not additions, targets ascending. -/
-theorem proofUndoAdd_canonical {F : Forest H} {adds : List H} (cr : CR H)
+theorem proofUndoAdd_canonical {F : Forest H} {adds : List H} (nz : NZ H)
     (hN : F.numLeaves + adds.length ≤ 2 ^ 63)
     (hndG : (F.addMany adds).liveLeaves.Nodup)
     (hleaf : ∀ x ∈ (F.addMany adds).liveLeaves, x ≠ (zero : H) ∧ ∀ a b : H, x ≠ ph a b)
@@ -315,7 +315,7 @@ theorem proofUndoAdd_canonical {F : Forest H} {adds : List H} (cr : CR H)
           ((destroyedPos F.numLeaves L).map (E (forestRows (F.numLeaves + adds.length)))) =
         .ok (⟨tgK.map (E F.rows), hsK⟩, K) := by
   have hn : F.numLeaves ≤ 2 ^ 63 := by omega
-  have hnumG := numLeaves_G cr hN hndG hleaf
+  have hnumG := numLeaves_G nz hN hndG hleaf
   have hG : (F.addMany adds).numLeaves ≤ 2 ^ 63 := by rw [hnumG]; exact hN
   have hR : (F.addMany adds).rows = forestRows (F.numLeaves + adds.length) := by
     unfold Forest.rows; rw [hnumG]
@@ -335,7 +335,7 @@ theorem proofUndoAdd_canonical {F : Forest H} {adds : List H} (cr : CR H)
     intro x hx
     obtain ⟨hxC, hxa⟩ := List.mem_filter.1 hx
     obtain ⟨_, _, h, s⟩ := sortedPairs_mem hG hcG hC' (mem_sortedPairs hG hcG hC' hxC)
-    exact live_old' cr hN hndG hleaf hL (s.leaves_live x (by simp [CTree.leaves])) (by simpa using hxa)
+    exact live_old' nz hN hndG hleaf hL (s.leaves_live x (by simp [CTree.leaves])) (by simpa using hxa)
   obtain ⟨tg0, hs0, hc0⟩ := CanonTotal.canon_total hn hK0live
   have hKSmem := fun (z : Pos × H) (hz : z ∈ sortedPairs F (C'.filter (fun x => decide (x ∉ adds)))) =>
     sortedPairs_mem hn hc0 hK0nd hz
@@ -393,16 +393,16 @@ theorem proofUndoAdd_canonical {F : Forest H} {adds : List H} (cr : CR H)
     · obtain ⟨_, _, T, sG⟩ := sortedPairs_mem hG hcG hC' hz
       by_cases ha : z.2 ∈ adds
       · obtain ⟨p, o, hm, hnot⟩ := new_origin hN hL hndG sG ha (by simp [CTree.leaves])
-        obtain ⟨h1, hv⟩ := moveBack_of_origin cr hN hndG hleaf hL o
+        obtain ⟨h1, hv⟩ := moveBack_of_origin nz hN hndG hleaf hL o
         rw [hm] at h1
         refine ⟨p, fun _ => ⟨h1, hv, ?_, fun h => absurd ha h⟩⟩
         exact decide_eq_decide.2 ⟨fun h => absurd h.2 hnot, fun h => absurd ha h⟩
-      · have hlive := live_old' cr hN hndG hleaf hL (sG.leaves_live z.2 (by simp [CTree.leaves])) ha
+      · have hlive := live_old' nz hN hndG hleaf hL (sG.leaves_live z.2 (by simp [CTree.leaves])) ha
         obtain ⟨p, hp⟩ := Spec.posOf_isSome_of_live (by omega) hlive
         obtain ⟨h0, s0⟩ := posOf_sub hp
         obtain ⟨T', o, hm, g⟩ := old_origin hN hL s0
         have e := sub_pos_unique hndG g sG
-        obtain ⟨h1, hv⟩ := moveBack_of_origin cr hN hndG hleaf hL o
+        obtain ⟨h1, hv⟩ := moveBack_of_origin nz hN hndG hleaf hL o
         rw [hm, e] at h1
         refine ⟨p, fun _ => ⟨h1, hv, ?_, fun _ => by unfold posD; rw [hp]; rfl⟩⟩
         have := s0.inF
@@ -434,8 +434,8 @@ theorem proofUndoAdd_canonical {F : Forest H} {adds : List H} (cr : CR H)
     · unfold ppPairs at hz
       obtain ⟨q, hq, rfl⟩ := List.mem_map.1 hz
       obtain ⟨T, t, s⟩ := pp_node tokG hq
-      obtain ⟨p, o, hm⟩ := node_origin cr hN hndG hleaf hL s
-      obtain ⟨h1, hv⟩ := moveBack_of_origin cr hN hndG hleaf hL o
+      obtain ⟨p, o, hm⟩ := node_origin nz hN hndG hleaf hL s
+      obtain ⟨h1, hv⟩ := moveBack_of_origin nz hN hndG hleaf hL o
       rw [hm] at h1
       exact ⟨p, fun _ => ⟨h1, hv, T, o, hm⟩⟩
     · exact ⟨(0, 0), fun h => absurd h hz⟩
@@ -634,7 +634,7 @@ theorem proofUndoAdd_canonical {F : Forest H} {adds : List H} (cr : CR H)
     apply filterMap_congr'
     intro q hq
     simp only [Function.comp]
-    obtain ⟨hqG, hhash⟩ := pp_undo_add' cr hN hndG hleaf hL hcK hcG hKiff hq
+    obtain ⟨hqG, hhash⟩ := pp_undo_add' nz hN hndG hleaf hL hcK hcG hKiff hq
     obtain ⟨h0, t0, s0⟩ := pp_node tokK hq
     -- the entry of the moved position returns to `q`
     have hw : (addMove F.numLeaves adds.length L q,
@@ -642,7 +642,7 @@ theorem proofUndoAdd_canonical {F : Forest H} {adds : List H} (cr : CR H)
         ppPairs (F.addMany adds) tgG := List.mem_map.2 ⟨_, hqG, rfl⟩
     obtain ⟨hb1, hv1, _⟩ := hfP _ hw
     obtain ⟨T', o, hm, _⟩ := old_origin hN hL s0
-    obtain ⟨hb2, hv2⟩ := moveBack_of_origin cr hN hndG hleaf hL o
+    obtain ⟨hb2, hv2⟩ := moveBack_of_origin nz hN hndG hleaf hL o
     rw [hm] at hb2
     simp only at hb1
     rw [hb2] at hb1
